@@ -163,6 +163,8 @@ func propC13(c *Ctx) {
 	g := NewGen(c.seed)
 	s := c.suite("unsupported-payloads", "oracle",
 		"messages of the encodable domain with payloads of unsupported type inserted by an independent chain encoder: exhaustively every type code 1..32, 49..255 x positions {front, middle, end} x both critical-flag values x body lengths {0,1,4,1024} as single insertions, plus random multi-insertions and random critical flags on supported payloads; non-trivial = >= 1 supported payload; distinct by datagram")
+	s2 := c.suite("unsupported-payloads-inside-sk", "oracle",
+		"every third case of the suite above once more with the chain as the inner chain of a protected message sealed by the independent reference (9 suites in rotation, both roles, both header modes): DecodeDecrypt must return the message without the insertions, or an error when an inserted payload is critical; includes inner chains that hold unsupported payloads only; non-trivial = every case; distinct by datagram")
 	var corr []corrCase
 	idx := 0
 	run := func(sx *Sx, ins []int, insEl []chainElem, critKnown bool) {
@@ -211,6 +213,25 @@ func propC13(c *Ctx) {
 			c.violate(Violation{Suite: s.Name, Kind: "property", Index: idx, Class: "unsupported-payload:" + dr.kind,
 				Desc:  fmt.Sprintf("message with %d inserted unsupported payload(s) (critical=%v) not handled as prescribed", len(ins), anyCrit),
 				Input: line, Expected: clip(want), Actual: clip(dr.String())})
+		}
+		// the same chain as the INNER chain of a protected message, sealed by the independent reference (its own
+		// AES-CBC and HMAC): unprotecting must give the message without the insertions / an error for a critical one
+		if idx%3 == 0 && len(chain) < 60000 {
+			st := allSuites()[idx/3%9]
+			k := g.saKeys(st)
+			sender := message.Role(idx%2 == 0)
+			pad := (16 - (len(chain)+1)%16) % 16
+			prot := refBuildSK(k, sender, encodeHeaderRef(sx.List[1], 46, nil), first, chain, g.keyBytesRandom(16), g.keyBytesRandom(pad))
+			ur := unprotect(newSA(k), prot, !sender, idx%6 == 0)
+			s2.add(unprotLine(k, !sender, idx%6 == 0, prot), true, fmt.Sprintf("inserted:%d", min(len(ins), 4)), fmt.Sprintf("anycrit:%v", anyCrit), fmt.Sprintf("supported-payloads:%d", min(len(sx.List[2].List), 3)), "outcome:"+ur.kind)
+			if idx%21 == 0 && len(prot) < 6000 {
+				corr = append(corr, corrCase{line: unprotLine(k, !sender, idx%6 == 0, prot), goRes: ur.String(), nontr: true, tags: []string{"op:unprotect"}})
+			}
+			if ur.String() != want {
+				c.violate(Violation{Suite: s2.Name, Kind: "property", Index: idx, Class: "unsupported-payload-inside-sk:" + ur.kind,
+					Desc:  fmt.Sprintf("protected message whose inner chain holds %d inserted unsupported payload(s) (critical=%v) and %d supported one(s) not handled as prescribed", len(ins), anyCrit, len(sx.List[2].List)),
+					Input: unprotLine(k, !sender, idx%6 == 0, prot), Expected: clip(want), Actual: clip(ur.String())})
+			}
 		}
 	}
 	// exhaustive single insertions
@@ -265,9 +286,13 @@ func propC13(c *Ctx) {
 		run(sx, ins, els, true)
 	}
 	// only unsupported payloads / empty message
-	for i := 0; i < 50; i++ {
+	for i := 0; i < 60; i++ {
 		sx := L(A("msg"), g.header(), L())
-		run(sx, []int{0}, []chainElem{{typ: uint8(1 + g.r.Intn(32)), body: g.bytes(g.r.Intn(9))}}, false)
+		if i%2 == 0 {
+			run(sx, []int{0}, []chainElem{{typ: uint8(1 + g.r.Intn(32)), body: g.bytes(g.r.Intn(9))}}, false)
+		} else {
+			run(sx, []int{0, 0}, []chainElem{{typ: uint8(49 + g.r.Intn(200)), body: g.bytes(g.r.Intn(9))}, {typ: uint8(1 + g.r.Intn(32)), resv: 0x7f, body: g.bytes(g.r.Intn(20))}}, false)
+		}
 	}
 	sc := c.suite("chain-model-vs-impl", "correspondence", "sample of the datagrams above: Go Decode outcome = Lean model outcome")
 	c.correspond(sc, corr)
